@@ -8,7 +8,7 @@ class Prop:
     MODEL_TARGETS = ['model/Node.vo', 'model/NodeSpec.vo']
     TARGETS = ['props/C07.vo']
     PROPS_FILE = 'props/C07.v'
-    SUITES = [NodeSuite(evals={'mismatches': 'mismatches', 'spec_violations': 'spec_violations_c07'})]
+    SUITES = [NodeSuite(evals={'mismatches': 'mismatches', 'spec_violations': 'spec_violations_c07t'})]
     RULE = base.Prop.RULE
     ASSUMPTIONS = base.Prop.ASSUMPTIONS
     TRUSTED = base.Prop.TRUSTED
